@@ -446,6 +446,30 @@ func (c *Ctx) callMayReturnNil(call *ssa.Call, idx int) bool {
 
 // impliedNonNil: v = X.Getter(arg) and a dominating X.Guard(arg') == true with arg' same as arg.
 func (c *Ctx) impliedNonNil(v ssa.Value, at ssa.Instruction) bool {
+	// (value, err) := helper(): the helper returns a nil value only together with a non-nil error, and the use is
+	// on the err == nil side
+	if ex, ok := v.(*ssa.Extract); ok {
+		if call, ok := ex.Tuple.(*ssa.Call); ok {
+			if fn := call.Call.StaticCallee(); fn != nil && fn.Blocks != nil && c.errCorrelated(fn, ex.Index) {
+				last := fn.Signature.Results().Len() - 1
+				for _, f := range FactsAt(at.Block()) {
+					bo, ok := f.Cond.(*ssa.BinOp)
+					if !ok || !(isNilConst(bo.X) || isNilConst(bo.Y)) {
+						continue
+					}
+					e := bo.X
+					if isNilConst(bo.X) {
+						e = bo.Y
+					}
+					if ee, ok := e.(*ssa.Extract); ok && ee.Tuple == ssa.Value(call) && ee.Index == last {
+						if (bo.Op == token.EQL) == f.Truth {
+							return true
+						}
+					}
+				}
+			}
+		}
+	}
 	call, ok := v.(*ssa.Call)
 	if !ok {
 		// through a local variable: find the single stored call
@@ -608,4 +632,40 @@ func (c *Ctx) calleeDerefsArg(ci ssa.CallInstruction, ai int) bool {
 		}
 	}
 	return false
+}
+
+// errCorrelated: fn returns (…, error) and whenever result idx is the nil constant the error result is not.
+func (c *Ctx) errCorrelated(fn *ssa.Function, idx int) bool {
+	res := fn.Signature.Results()
+	if res.Len() < 2 || res.At(res.Len()-1).Type().String() != "error" || idx >= res.Len()-1 {
+		return false
+	}
+	last := res.Len() - 1
+	any := false
+	for _, b := range fn.Blocks {
+		if len(b.Instrs) == 0 {
+			continue
+		}
+		ret, ok := b.Instrs[len(b.Instrs)-1].(*ssa.Return)
+		if !ok || len(ret.Results) != res.Len() {
+			continue
+		}
+		any = true
+		v := ret.Results[idx]
+		k, isC := v.(*ssa.Const)
+		if isC && k.IsNil() {
+			if ek, isEC := ret.Results[last].(*ssa.Const); isEC && ek.IsNil() {
+				return false
+			}
+			continue
+		}
+		if isC {
+			continue
+		}
+		// a non-constant value: it must itself be non-nullable on this path
+		if c.mayNilFn != nil && c.mayNilFn(v, map[ssa.Value]bool{}) && !c.nonNilAt(v, ret) {
+			return false
+		}
+	}
+	return any
 }
